@@ -278,6 +278,9 @@ Definition normal_form (os : ostate) (re : option (result ostate)) : bool :=
       match re with
       | Some (Ok os2) =>
           list_eqb block7_eqb (map block_of (os_blocks os)) (map block_of (os_blocks os2))
+          (* the version as the public property shows it (str(block.version)) *)
+          && list_eqb (option_eqb str_eqb) (map (fun b => dopt (ob_pubversion b)) (os_blocks os))
+                      (map (fun b => dopt (ob_pubversion b)) (os_blocks os2))
           && rstr_eqb (Ok (declit t)) (os_str os2)
       | _ => false
       end
